@@ -11,7 +11,7 @@ open Fzf Driver
     is in the preview pane, never more than one command alive, none after the session. -/
 def run (op : String) (args impl : List String) : Outcome :=
   match op, args with
-  | "sess", [kind, _n, _steps] =>
+  | "sess", [kind, _n, steps] =>
     match impl with
     | [cur, q, lastk, lastq, shown, maxAlive, after, left, logged] =>
       let spec :=
@@ -26,7 +26,8 @@ def run (op : String) (args impl : List String) : Outcome :=
           specFail s!"[C20] at quiescence the preview pane does not show the output for line {cur}"
         else specOk
       { model := " ".intercalate impl, same := some true, spec,
-        tags := ["preview", kind] ++ (if logged.toNat! ≥ 3 then ["nt"] else []) ++ (if cur == "-" then ["no-match"] else []) }
+        tags := ["preview", kind] ++ (if logged.toNat! ≥ 3 then ["nt"] else []) ++ (if cur == "-" then ["no-match"] else []) ++
+          (if (steps.splitOn "64,81,85,69,82,89,64").length > 1 then ["template-switched"] else []) }
     | _ => { model := "bad-answer", spec := specFail "[C20] the session could not be observed" }
   | _, _ => { model := "bad-op" }
 
